@@ -20,7 +20,8 @@ RULE = ("Hypothesis trajectories (1-30 poses drawn; bulk to 1e5 poses in the tho
         "double range (stratified 1e-300..1e300, any finite float, -0.0, subnormals), unit quaternions with full mantissas, epoch "
         "timestamps with ns fractions; results with arbitrary finite stats, unicode info, arrays (1-D incl. empty, 4x4) with and "
         "without embedded trajectories; str / pathlib.Path / handle variants; TUM, KITTI, result archive, DataFrame, ROS1 bag. "
-        "Non-trivial = a stored value needing >= 16 significant digits, or magnitude outside 1e+-100, or -0.0; distinct by SHA-1")
+        "Non-trivial = a stored value needing >= 16 significant digits, or magnitude outside 1e+-100, or -0.0; distinct by SHA-1"
+        ' Round-3 additions: views/derived quantities materialised before writing; bag export through evo_traj --save_as_bag with a reference topic.')
 ASSUMPTIONS = ["bit-exact comparison (numpy.array_equal plus sign of zeros) on what the format stores; for matrix-built objects the "
                "quaternion evo derives is what a TUM file stores",
                "ROS1 bag: 0 <= t < 2^31, |dt| <= 1 ns + 0.5 ulp(t) (measured on the unchanged tree: <= 1 ns, exactly 0 at epoch size); ROS2 is outside the statement"]
